@@ -1111,6 +1111,28 @@ fn run(case: &Case, out: &mut Out) {
                 }
                 t.extend(e.io_toks());
                 out.obs(&t);
+                // a complete well-formed header of at most 232 bytes must have been accepted by now: the session must not
+                // sit in the expect state with the header half read
+                if matches!(e.sess, Sess::Expect(_)) && !e.front_eof && !e.peer_closed && !e.peer_eof {
+                    let s = e.fs.borrow();
+                    if !s.rerr && e.front_sent.len() >= 16 {
+                        let total = 16 + ((e.front_sent[14] as usize) << 8 | e.front_sent[15] as usize);
+                        if total <= 232 && e.front_sent.len() >= total {
+                            if let RefParse::Full(..) = ref_parse(&e.front_sent[..total]) {
+                                out.viol(
+                                    "header-not-accepted",
+                                    &format!(
+                                        "mode {}: after a fair drain the session still waits for a PROXY v2 header although the {} byte(s) it was sent begin with a complete well-formed header of {} bytes ({} byte(s) still unread in the socket)",
+                                        e.mode,
+                                        e.front_sent.len(),
+                                        total,
+                                        s.inq.len()
+                                    ),
+                                );
+                            }
+                        }
+                    }
+                }
                 // fairness oracle: both peers kept reading and writing, nobody closed: nothing may be left behind
                 if matches!(e.sess, Sess::Pipe(_)) && !e.blocked && !e.peer_closed && !e.peer_eof && !e.front_eof {
                     let s = e.fs.borrow();
